@@ -238,21 +238,27 @@ class Gen:
         self.last_ofm = ofm
         return spec
 
-    def elementwise(self):
+    def elementwise(self, force=None):
+        """force (optional): dict(sub, oh, ow, oc, dtype, scalar=True, lut=True) - a binary operation with a scalar second operand and a table activation of the
+        given size (what a stand-alone table activation is lowered to)"""
         r = self.rng
+        force = force or {}
         sub = str(r.choice(["ADD", "SUB", "MUL", "MIN", "MAX", "ABS", "LRELU", "SHR", "SHL", "CLZ", "ADD", "MUL"]))
         if self.focus == "eltwise-scales":
             sub = str(r.choice(["ADD", "SUB", "MUL", "ADD", "SUB"]))
+        sub = force.get("sub", sub)
         oh, ow = self.rand_hw()
         oc = int(r.choice([1, 4, 8, 16, 24, 33]))
+        oh, ow, oc = force.get("oh", oh), force.get("ow", ow), force.get("oc", oc)
         if sub in ("SHR", "SHL", "CLZ"):
             dtype = "INT32"
         else:
             dtype = self.rdtype(("INT8", "UINT8", "INT16", "INT32") if sub in ("ADD", "SUB", "MUL") else ("INT8", "UINT8", "INT16"))
             if self.focus == "eltwise-scales":
                 dtype = self.rdtype(("INT8", "UINT8", "INT16", "INT16"))
+        dtype = force.get("dtype", dtype)
         lo_ = self.last_ofm
-        if lo_ is not None and r.integers(0, 3) == 0 and sub not in ("SHR", "SHL", "CLZ") and lo_.dtype in ("INT8", "UINT8", "INT16"):
+        if not force and lo_ is not None and r.integers(0, 3) == 0 and sub not in ("SHR", "SHL", "CLZ") and lo_.dtype in ("INT8", "UINT8", "INT16"):
             # consume what the previous operation produced (same shape and type): dependent consecutive kernels
             (oh, ow, oc), dtype = lo_.shape, lo_.dtype
         ifm = self.chain_ifm((oh, ow, oc), dtype) or self.fm((oh, ow, oc), dtype, name="ifm")
@@ -268,8 +274,12 @@ class Gen:
             spec["act"] = None if spec["act"] and spec["act"]["op"] != "TABLE_LOOKUP" else spec["act"]
         if sub in ("LRELU", "ABS") and ofm.scale is None:
             ofm.scale, ofm.zp = float(np.float32(0.05)), 0
+        if force.get("lut"):
+            spec["act"] = {"op": "TABLE_LOOKUP", "min": None, "max": None, "lut": int(r.integers(0, 8))}
         if sub not in isa.UNARY_ELTWISE:
             k = r.integers(0, 5)
+            if force.get("scalar"):
+                k = 0
             if k == 0:
                 i2 = self.fm((1, 1, 1), dtype, allow_tiles=False, allow_slice=False, name="ifm2")
                 spec["ifm2"] = i2
